@@ -39,7 +39,7 @@ fn patterns_of(debug: &str) -> Vec<String> {
     out.into_iter().collect()
 }
 
-async fn put_cache(app: &Arc<AppShareData>, ty: CacheType, token: &str, value: CacheValue, expired: bool) -> anyhow::Result<()> {
+pub(crate) async fn put_cache(app: &Arc<AppShareData>, ty: CacheType, token: &str, value: CacheValue, expired: bool) -> anyhow::Result<()> {
     let mut p = CacheSetParam::new(CacheKey::new(ty, Arc::new(token.to_string())), value);
     let now = rnacos::now_second_i32();
     if expired {
@@ -83,6 +83,9 @@ pub fn main_authz(args: &[String]) -> anyhow::Result<()> {
     std::env::set_var("RNACOS_ENABLE_OPEN_API_AUTH", "true");
     std::env::set_var("RNACOS_CONSOLE_ENABLE_CAPTCHA", "false");
     std::env::set_var("RNACOS_CLUSTER_TOKEN", "verif-cluster-token");
+    if args[0] == "grpc" || args[0] == "grpc-inventory" {
+        std::env::set_var("RNVERIF_LEADER", "1");
+    }
     if args[0] == "c18" {
         std::env::set_var("RNVERIF_LEADER", "1");
         std::env::set_var("RNACOS_ENABLE_OPEN_API_AUTH", "false");
@@ -91,6 +94,9 @@ pub fn main_authz(args: &[String]) -> anyhow::Result<()> {
     let r: anyhow::Result<()> = sys.block_on(async move {
         let app = crate::node::boot(&d).await?;
         match mode.as_str() {
+            "grpc" | "grpc-inventory" => {
+                crate::grpcauth::run(app.clone(), mode.as_str(), &file).await?;
+            }
             "inventory" => {
                 let console = test::init_service(App::new().app_data(web::Data::new(app.clone())).app_data(web::Data::new(app.config_addr.clone())).app_data(web::Data::new(app.naming_addr.clone())).app_data(web::Data::new(app.bi_stream_manage.clone())).configure(console_config).route("/__verif_routes", web::get().to(resource_map_probe))).await;
                 let resp = test::call_service(&console, test::TestRequest::get().uri("/__verif_routes").to_request()).await;
